@@ -28,6 +28,7 @@ GUARDS = [
     (r"LeafOk (P\.)?S", "{F}.LeafOk"),
     (r"SchemaOk (P\.)?S", "{F}.SchemaOk"),
     (r"(FromDom\.)?TextStable (P\.)?S", "(FromDom.textStable_of_B _ (domFamily_textStable _ hS))"),
+    (r"WrapWF S \(S\.dfa t\) q", "(wrapWF_of_facts {F} t q)"),
     (r"buildSchema spec = \.ok S", "@BUILD@"),
     (r"compileSchema spec dfas = \.ok S", "@COMPILE@"),
 ]
@@ -42,7 +43,8 @@ TARGETS = {
             "delete_total_respects", "deleteRange_total", "insertInline_total"],
     "C12": ["canJoin_join_applies", "liftTarget_lift_applies_flat", "liftTarget_lift_applies"],
     "C13": ["stepAll_total", "addMark_total", "removeMark_total", "addMark_total_effect", "removeMark_total_effect"],
-    "C15": ["findWrapping_sound", "createAndFill_valid", "createAndFill_nothing_iff", "createAndFill_raises",
+    "C15": ["findWrapping_complete", "findWrapping_shortest_complete", "findWrappingTypes_eq",
+            "findWrappingTypes_shortest_complete", "findWrappingTypes_sound_shortest", "findWrapping_sound", "createAndFill_valid", "createAndFill_nothing_iff", "createAndFill_raises",
             "createAndFillO_iff", "createAndFill0_iff", "createAndFillDom_iff", "createAndFillO_valid", "createAndFill0_valid",
             "createAndFillDom_valid", "fillBeforeNodes_valid", "fillNodesDom_valid"],
     "C16": ["merge_succeeds_marks", "merge_equiv_marks", "merge_succeeds_replace"],
@@ -119,6 +121,13 @@ def gen(prop):
     for name in TARGETS[prop]:
         sig = theorem_sig(src, name)
         binders, concl = split_binders(sig)
+        if any(re.search(r"WrapWF S d q", b) for b in binders):
+            # the automaton asked about is the content automaton of a node type of the schema
+            wrap_d = True
+            binders = ["(d : Dfa)" if b == "(d : Dfa)" else re.sub(r"\bd\b", "(S.dfa t)", b) for b in binders]
+            concl = re.sub(r"\bd\b", "(S.dfa t)", concl)
+        else:
+            wrap_d = False
         new_binders, args = [], []
         subject = None   # "S" or "P.S"
         used_dom = False
@@ -129,6 +138,10 @@ def gen(prop):
                 continue
             names, ty = inner.split(":", 1)
             names, ty = names.split(), " ".join(ty.split())
+            if wrap_d and b == "(d : Dfa)":
+                new_binders.append("(t : TypeId)")
+                args.append("(S.dfa t)")
+                continue
             hit = None
             for pat, term in GUARDS:
                 if re.fullmatch(pat, ty):
@@ -208,6 +221,15 @@ EXTRA["C15"] = {"pre": [
     "  refine ⟨hok.start t ht', fun q hq => ⟨hok.det t q, fun e he => hok.edge t q e he, ?_⟩⟩",
     "  have := hok.fill t q hq",
     "  intro hn; rw [hn] at this; cases this",
+    "",
+    "theorem wrapWF_of_facts {S : Schema} (h : Facts S) (t q : Nat) : WrapWF S (S.dfa t) q := by",
+    "  have hok := h.SchemaOk",
+    "  refine ⟨fun e he => (hok.edge t q e he).2, fun nt hnt e he => ?_⟩",
+    "  obtain ⟨w, hw, rfl⟩ := List.getElem_of_mem hnt",
+    "  have hw' : w < S.nodes.size := by simpa using hw",
+    "  have hd : S.dfa w = S.nodes.toList[w].dfa := by simp [Schema.dfa, Schema.nodeType, hw']",
+    "  rw [← hd] at he",
+    "  exact (hok.edge w 0 e he).2",
     "",
 ]}
 
